@@ -59,6 +59,10 @@ def chosen_cases(tb, rnd, tier):
     add(comp=['zlib@openssh.com', 'none'])
     add(comp=['zlib', 'zlib@openssh.com'], role='client')
     add(comp=['none', 'foo-comp'])
+    # identification strings using the whole printable range (0x20..0x7E: the tilde of Debian backport versions included)
+    add(banner='SSH-2.0-OpenSSH_6.0p1 Debian-4+deb7u2~bpo60+1')
+    add(banner='SSH-2.0-Srv_1.0 !"#$%&\'()*+,./:;<=>?@[\\]^_`{|}~', role='client')
+    add(banner='SSH-2.0-~tilde~_2.0 ~')
     # the two directions of a KEXINIT may differ (RFC 4253 7.1); the report is about the server-to-client lists
     asym = dict(enc=['aes128-ctr', 'aes256-ctr'], enc_c2s=['aes256-gcm@openssh.com', '3des-cbc'],
                 mac=['hmac-sha2-512-etm@openssh.com', 'umac-128@openssh.com'], mac_c2s=['hmac-sha1', 'hmac-md5', 'hmac-sha2-256'])
